@@ -27,6 +27,7 @@ def ipfix_inserts():
             s(303, [1, 2, 3, 4, 5, 6, 7, 8]), s(303, [1, 2, 3, 4, 5, 6, 7, 8] * 2),
             # many undecodable sets in a row (each raises its own non-fatal error)
             s(999, [7]) * 12, s(300, [10, 0, 0, 1, 9, 9, 9, 9]) * 9 + s(999, []) * 3 + s(5, [1]) * 2,
+            s(999, [7]) * 16, s(998, []) * 17, s(999, [7]) * 40,
             s(5, NESTED), s(999, NESTED), s(300, NESTED), s(200, NESTED[4:])]
 
 def _u16(n):
@@ -122,6 +123,7 @@ def v9_inserts():
             s(301, [1, 2, 3, 4, 5, 6, 7, 8]), s(302, [1, 2, 3, 4, 5, 6, 7, 8, 9, 10, 11, 12]),
             s(303, [1, 2, 3, 4, 5, 6, 7, 8]), s(303, [1, 2, 3, 4, 5, 6, 7, 8] * 2),
             s(999, [7]) * 12, s(300, [10, 0, 0, 1, 9, 9, 9, 9]) * 9 + s(999, []) * 3 + s(5, [1]) * 2,
+            s(999, [7]) * 16, s(998, []) * 17, s(999, [7]) * 40,
             s(5, NESTED), s(999, NESTED), s(300, NESTED), s(200, NESTED[4:])]
 
 def _v9_msg(count, sets):
